@@ -309,6 +309,12 @@ def symmetric_dimers():
         for a in d:
             for b in d:
                 out.append('C%sC=C%s%s%sC=C%sC' % ('/' if a else '', a, link, '/' if b else '', b))
+    # tri- and tetrasubstituted double-bond pairs: the reference substituent of an end must be chosen by class, not by number
+    for link in ('C', 'CC', 'O', 'c1ccc(cc1)'):
+        for left in ('C/C=C(C)/', 'C/C=C(/C)', 'C\\C=C(C)/', 'CC=C(C)', 'C/C(F)=C(C)/', 'C/C(F)=C(/C)', 'CC/C=C(CO)/', 'CC/C=C(/CO)'):
+            for right in ('C(/C)=C\\C', 'C(/C)=C/C', '/C(C)=C/C', '/C(C)=C\\C', 'C(C)=CC', '/C(C)=C(F)/C', '/C(C)=C(F)\\C',
+                          '/C(CO)=C/CC', '/C(CO)=C\\CC'):
+                out.append(left + link + right)
     al = ('[C@]', '[C@@]', 'C')
     for link in ('C', 'CC', 'O'):
         for a in al:
